@@ -209,7 +209,9 @@ func (c *conn) send(ctx context.Context, msg *kmip.RequestMessage) error {
 	}
 	tx := c.tx.Load().(chan txMsg)
 	verifYield("cli.send.loaded")
-	errCh := make(chan error)
+	// Buffered so that writeloop never blocks reporting a write error to a sender
+	// which has already given up (context canceled or connection terminated).
+	errCh := make(chan error, 1)
 	select {
 	case tx <- txMsg{msg: msg, err: errCh}:
 		select {
